@@ -293,6 +293,13 @@ func init() {
 			max := int(in.concInt(a[1], "verifString"))
 			s := in.newNondet(in.concStr(a[0], "verifString"), "str", 0, false).(*sym)
 			in.strMax[s.t] = max
+			if in.cfg.FoldRegex {
+				if max > 0 { // verifString(name, 0): no length bound
+					in.solver.SetMaxLen(s.t, max)
+				}
+				in.solver.Send("(assert " + in.solver.DefineMemb(s.t, "(re.* (re.range \"\\u{0}\" \"\\u{ff}\"))") + ")")
+				return s
+			}
 			in.solver.Send(fmt.Sprintf("(assert (<= (str.len %s) %d))", s.t, max))
 			// bytes only: every character is a code point below 256
 			in.solver.Send(fmt.Sprintf("(assert (str.in_re %s (re.* (re.range \"\\u{0}\" \"\\u{ff}\"))))", s.t))
